@@ -226,9 +226,14 @@ impl Rig {
         let a = thread::Builder::new()
             .name(format!("A:{name}"))
             .spawn(move || {
+                // The value that is shipped and shared is NEVER rendered before the workers do it
+                // concurrently (a lazily filled cache behind `&self` would otherwise be warm already);
+                // the reference rendering comes from a second, identically built instance.
                 let v = make();
-                let sql = render(&v);
-                let expect = if lite { format!("{}\n-- debug --\n", sql) } else { format!("{}\n-- debug --\n{:?}", sql, v) };
+                let reference = make();
+                let sql = render(&reference);
+                let expect = if lite { format!("{}\n-- debug --\n", sql) } else { format!("{}\n-- debug --\n{:?}", sql, reference) };
+                drop(reference);
                 tx.send((v, expect, sql, thread::current().id())).expect("send to B");
             })
             .expect("spawn A");
